@@ -46,6 +46,7 @@ func slotScenario(akind, aclose, stale string, early bool) *vsched.Scenario {
 	var staleRes string
 	var sameSlot, sameFd bool
 	var bCloseRet bool
+	var bReady hbFlag
 	sc := &vsched.Scenario{Name: "slot.reuse", Horizon: 8000}
 	sc.Body = func() {
 		gotB, staleRes, sameSlot, sameFd, bCloseRet = nil, "", false, false, false
@@ -88,7 +89,8 @@ func slotScenario(akind, aclose, stale string, early bool) *vsched.Scenario {
 			B = mk("B", a2, true, &gotB)
 			sameSlot = netpoll.VerifOperator(B) == slotA
 			sameFd = a2 == a1
-			vsched.LogEvent(fmt.Sprintf("B:open sameslot=%v samefd=%v", sameSlot, sameFd))
+			vsched.LogEvent(fmt.Sprintf("B:open sameslot=%v", sameSlot))
+			bReady.Set()
 		}
 		var spawnStaleEarly func()
 		if during {
@@ -139,6 +141,7 @@ func slotScenario(akind, aclose, stale string, early bool) *vsched.Scenario {
 		} else {
 			vsched.WaitCond("B-open", func() bool { return B != nil })
 		}
+		bReady.Acquire()
 		b := B
 		// stale call on A, concurrent with traffic on B (or, "@during", with A's close and B's open as well)
 		spawnStale := func() {
